@@ -76,6 +76,15 @@ def run(rep, tier, rng):
                     path_cuts[0] += 1
                     if pmsg and not path_fail:
                         path_fail.append(pmsg)
+            # ... and the complete .shp beside a truncated .shx (cut inside its header, inside and between entries): the
+            # path-based readers must report the damaged index as the in-memory reader does, not ignore it
+            for l in sorted({0, 50, 99, 100, 104, len(shx) - 8, len(shx) - 1}):
+                if 0 <= l < len(shx):
+                    pmsg = pathio.check(rep, dev, "c13", "x%d_%d" % (mi, l), shp, shx[:l], code,
+                                        "complete .shp beside a .shx cut at byte %d of %d on disk" % (l, len(shx)))
+                    path_cuts[0] += 1
+                    if pmsg and not path_fail:
+                        path_fail.append(pmsg)
         # --- truncation of the .shx
         for l in range(0, len(shx), 1 if tier == "thorough" else 3):
             cases.append(C.read_case(-1, shp, shx[:l], OPSI))
